@@ -295,3 +295,16 @@ Example reshape_rule_examples :
   bind (matmul (OpRRT a) (OpRR a)) reduce = Ok (OpId [[2; 3]%nat]) /\
   bind (matmul (OpRR a) (OpRRT a)) reduce = Ok (OpId [[6]%nat]).
 Proof. repeat split; reflexivity. Qed.
+
+(* two DIFFERENT relabellings of one in-structure (re-chunking): r2 @ r1.T and r2.T @ r1 compose, the rule
+   does not fire in either order, the composition is kept and is not the identity map *)
+Example reshape_rule_different_operators :
+  let r1 := RRavel (mkRavel 1 0 (-1) [[2; 3]%nat]) in
+  let r2 := RReshape (mkReshape 2 [3; 2] [[2; 3]%nat]) in
+  let r3 := RRavel (mkRavel 3 0 (-1) [[3; 2]%nat]) in
+  bind (matmul (OpRR r2) (OpRRT r1)) reduce = Ok (OpComp (OpRR r2) (OpRRT r1)) /\
+  bind (matmul (OpRRT r1) (OpRR r3)) reduce = Ok (OpComp (OpRRT r1) (OpRR r3)) /\
+  out_structure (OpComp (OpRR r2) (OpRRT r1)) = Ok [[3; 2]%nat] /\
+  in_structure (OpComp (OpRR r2) (OpRRT r1)) = Ok [[6]%nat] /\
+  datas (apply Z 0 (OpComp (OpRRT r1) (OpRR r3)) [arange [3; 2]%nat]) = Ok [([2; 3]%nat, [0; 1; 2; 3; 4; 5])].
+Proof. repeat split; reflexivity. Qed.
